@@ -20,6 +20,36 @@ var (
 	vfSigmaSmall = []string{"a", "", "---", "/-/-/-/", "[TestA - 2]", "[TestQ - 7]", "$1", "--- "}
 )
 
+// vfNear lists near-misses of a special token: what a reader or writer that is
+// slightly too tolerant (trimming, prefix/suffix matching, doubling) would confuse with it.
+func vfNear(tok string) []string {
+	out := []string{tok + " ", tok + "\t", " " + tok, "\t" + tok, tok + tok, tok + " " + tok, tok + "x", "x" + tok}
+	if len(tok) > 1 {
+		out = append(out, tok[:len(tok)-1], tok[1:])
+	}
+	return out
+}
+
+// vfSigmaNear: the full alphabet plus the near-misses of every token the file
+// format gives a meaning to (used for one-line bodies in the thorough tiers).
+var vfSigmaNear []string
+
+func init() {
+	seen := map[string]bool{}
+	for _, t := range vfSigmaFull {
+		seen[t] = true
+		vfSigmaNear = append(vfSigmaNear, t)
+	}
+	for _, special := range []string{"---", "/-/-/-/", "[TestA - 1]", "[TestA - 2]"} {
+		for _, n := range vfNear(special) {
+			if !seen[n] {
+				seen[n] = true
+				vfSigmaNear = append(vfSigmaNear, n)
+			}
+		}
+	}
+}
+
 // vfBodies enumerates every body of 0..maxLines lines over sigma, each
 // followed by 0..maxExtraNL extra newlines; duplicates removed, shortest first.
 func vfBodies(sigma []string, maxLines, maxExtraNL int) []string {
